@@ -145,6 +145,7 @@ pub fn run_stage(st: &AnyState, act: &Action, mode: Mode) -> StageResult {
         kt_ratio: Some(0.),
         max_step: act.max_step,
         convergence: None,
+        history: 0,
     };
     let builder = cfg.builder();
     let log = Arc::new(Mutex::new(vec![]));
@@ -210,6 +211,13 @@ pub fn actions(nbasis: usize) -> Vec<Action> {
         v.push(Action { steps: vec![StageStep { index: i, q: 0. }, StageStep { index: i, q: hi }], max_step: 0.1 });
         v.push(Action { steps: vec![StageStep { index: i, q: 0.25 }, StageStep { index: i, q: hi }], max_step: 1. });
     }
+    // moves of several whole ranges (max_step_size 6) on the parameters of the last site and on
+    // the cell length: whatever brings such a proposal back must bring it back inside
+    for i in nbasis.saturating_sub(3)..nbasis {
+        v.push(Action { steps: vec![StageStep { index: i, q: 0. }], max_step: 6. });
+        v.push(Action { steps: vec![StageStep { index: i, q: hi }], max_step: 6. });
+    }
+    v.push(Action { steps: vec![StageStep { index: 0, q: 0.4 }], max_step: 6. });
     // a small move of the last parameter followed by a cell shrink
     v.push(Action { steps: vec![StageStep { index: nbasis - 1, q: 0.7 }, StageStep { index: 0, q: 0.3 }], max_step: 0.1 });
     v
@@ -599,9 +607,9 @@ pub fn real_runs(tier: Tier) -> RealRuns {
     for g in GROUP_NAMES.iter() {
         for s in shapes.iter() {
             for (ci, cfg) in [
-                Cfg { steps: 60, inner: 20, kt_start: 0., kt_finish: Some(1e-3), kt_ratio: None, max_step: 0.05, convergence: None },
-                Cfg { steps: 60, inner: 60, kt_start: 0.2, kt_finish: None, kt_ratio: Some(0.), max_step: 0.1, convergence: None },
-                Cfg { steps: 40, inner: 10, kt_start: 0., kt_finish: None, kt_ratio: Some(0.5), max_step: 0.5, convergence: Some(1e-4) },
+                Cfg { steps: 60, inner: 20, kt_start: 0., kt_finish: Some(1e-3), kt_ratio: None, max_step: 0.05, convergence: None, history: 0 },
+                Cfg { steps: 60, inner: 60, kt_start: 0.2, kt_finish: None, kt_ratio: Some(0.), max_step: 0.1, convergence: None, history: 0 },
+                Cfg { steps: 40, inner: 10, kt_start: 0., kt_finish: None, kt_ratio: Some(0.5), max_step: 0.5, convergence: Some(1e-4), history: 0 },
             ]
             .iter()
             .enumerate()
